@@ -77,24 +77,39 @@ func axiomRegexParts(p *prove.World) func(c *prove.Ctx, in ssa.Instruction) {
 		for _, b := range in.Parent().Blocks {
 			for _, x := range b.Instrs {
 				call, ok := x.(*ssa.Call)
-				if !ok || prove.StaticName(call.Common()) != "regexp.MatchString" {
+				if !ok {
 					continue
 				}
-				if call.Common().Args[1] != src {
-					continue
-				}
-				rk, ok := call.Common().Args[0].(*ssa.Const)
-				if !ok || rk.Value == nil || rk.Value.Kind() != constant.String {
-					continue
-				}
-				if !everyPieceHasPrefix(constant.StringVal(rk.Value), "0x") {
-					continue
-				}
-				for _, r := range *call.Referrers() {
-					if ex, ok := r.(*ssa.Extract); ok && ex.Index == 0 {
-						if t, known := c.BoolKnown(ex); known && t {
-							found = true
+				switch prove.StaticName(call.Common()) {
+				case "regexp.MatchString":
+					if call.Common().Args[1] != src {
+						continue
+					}
+					rk, ok := call.Common().Args[0].(*ssa.Const)
+					if !ok || rk.Value == nil || rk.Value.Kind() != constant.String {
+						continue
+					}
+					if !everyPieceHasPrefix(constant.StringVal(rk.Value), "0x") {
+						continue
+					}
+					for _, r := range *call.Referrers() {
+						if ex, ok := r.(*ssa.Extract); ok && ex.Index == 0 {
+							if t, known := c.BoolKnown(ex); known && t {
+								found = true
+							}
 						}
+					}
+				case "(*regexp.Regexp).MatchString":
+					// the same test through a pattern compiled once (package-level variable or local)
+					if call.Common().Args[1] != src {
+						continue
+					}
+					pat, ok := p.RegexpPattern(call.Common().Args[0])
+					if !ok || !everyPieceHasPrefix(pat, "0x") {
+						continue
+					}
+					if t, known := c.BoolKnown(call); known && t {
+						found = true
 					}
 				}
 			}
